@@ -10,15 +10,15 @@ NOTE = ('trusted: TLC 1.8 + CommunityModules Json reader, the Go harness recorde
 CLAIMED = {
  'C01': ('Router.tla/Resolve.tla: TLC checks exhaustively (bounded pools) that every admissible reply of the specification is sound; the real router is bound by replaying TLC-generated histories (BFS all histories to depth 2 from base tables, seeded simulation) and byte-mutated paths, every recorded dispatch is validated by the trace spec with Fits/CapNames directly on the observed reply (independent of the resolver).', '5 C01',
          'TLC model checking + trace validation of replayed TLC behaviours (Trace_Router.tla, check C01)'),
- 'C02': ('Resolve.tla is the documented resolution procedure as a function of the live pattern set; TLC generates every ordered registration sequence (depth 4 over 10 competing patterns) and the harness probes every path up to length L over a 5-letter alphabet; each observed outcome must be a member of the admissible set Res (404 iff empty).', '5 C02',
+ 'C02': ('Resolve.tla is the documented resolution procedure as a function of the live pattern set; TLC generates every ordered registration sequence (depth 4 over 10 competing patterns) and the harness probes every path up to length L over a 5-letter alphabet; each observed outcome must be a member of the admissible set Res (404 iff empty). Tree.tla (structural transcription of internal/tree) is model-checked to refine Resolve.tla on every registration order (MC_Tree: TableRef, SoundRef, AddOnlyRef) and its shape is compared with the dumped shape of the real tree (drift report).', '5 C02 / 11.5',
          'TLC-generated registration orders x exhaustive path set, outcome membership in Resolve.tla admissible set'),
- 'C03': ('Router.tla Handle/Remove/Clean actions; TLC enumerates all histories to depth 2 from base tables with >=6 literal siblings / top-level literals / split-prone pairs, the battery (Routes, witness paths x methods, frame comparison with the battery before the removal) is validated by the trace spec; C03_Frame and C03_Reach are also model-checked on the specification.', '5 C03',
+ 'C03': ('Router.tla Handle/Remove/Clean actions; TLC enumerates all histories to depth 2 from base tables with >=6 literal siblings / top-level literals / split-prone pairs, the battery (Routes, witness paths x methods, frame comparison with the battery before the removal) is validated by the trace spec; C03_Frame and C03_Reach are also model-checked on the specification; pools R (a route losing all of its >= 5 children in every order), Y (TRACE as ordinary method), FC (routes at a cleaned prefix) run unsampled; the repository's own tests are validated through the call-trace hooks (Trace_Tree.tla).', '5 C03 / 11.5',
          'TLC model checking (C03_Frame, C03_Reach) + trace validation of all depth-2 histories'),
  'C04': ('AllowSet/RootAllowOK in RouterOps.tla; every OPTIONS/405 Allow header (read through the node captured at first registration), Node().Methods(), Routes() entry and OPTIONS * reply recorded after every TLC-generated history (pool C with/without WithTrace, method-list pool X) is compared as a set with the specification table.', '5 C04',
          'trace validation of TLC-generated histories against AllowSet / RootAllowOK'),
  'C05': ('the specification is total (no crash action): every recorded call must carry panic=none (serve, Routes, URL, CheckSyntax) or an error value (Handle); arbitrary-byte paths/methods from the Go driver and all histories of pools X and B; Handle verdict compared with CheckSyntax on fresh routers.', '5 C05',
          'trace validation: totality of the specification vs recorded faults, randomized byte inputs'),
- 'C06': ('Lock.tla models one WithLock(true) router with one action per critical section / tree access (begin and end steps, so overlaps are states); TLC checks RaceFree, LockOK and NoTornReply for ALL interleavings of 2 writers x 2-3 readers x 2 operations under the intended discipline and must find the counterexample under the as-built (pinned) discipline. The code is bound by real schedules: TLC-generated concurrent programs (writers Handle/Remove/Clean that split and re-merge nodes of untouched routes, readers ServeHTTP/Routes/URL) run with real goroutines on a -race build; call/ret histories are validated for linearizability against RouterOps by Trace_Lin.tla; race reports, fatal errors, panics and hangs are faults.', '5 C06',
+ 'C06': ('Lock.tla models one WithLock(true) router with one action per critical section / tree access (begin and end steps, so overlaps are states); TLC checks RaceFree, LockOK and NoTornReply for ALL interleavings of 2 writers x 2-3 readers x 2 operations under the intended discipline and must find the counterexample under the as-built (pinned) discipline. The code is bound by real schedules: TLC-generated concurrent programs (writers Handle/Remove/Clean that split and re-merge nodes of untouched routes, readers ServeHTTP/Routes/URL) run with real goroutines on a -race build; call/ret histories are validated for linearizability against RouterOps by Trace_Lin.tla; race reports, fatal errors, panics and hangs are faults. Binding 2: verif access hooks report site / read-write / lock mode actually held in single-goroutine replays, validated by Trace_LockDisc.tla (mutating calls entirely under W, observers under R).', '5 C06 / 11.5',
          'TLC model checking of Lock.tla (all interleavings) + linearizability trace validation (Trace_Lin.tla) of -race goroutine runs'),
  'C07': ('Globals.tla models the package-level memo and the context pool shared by distinct instances (RaceFree, PoolOK for all interleavings of 3 goroutines; as-built deviation must fail). Bound to the code by -race runs of one goroutine per independent instance (routers built inside the goroutine, a Hosts matcher), of 4 readers on a quiescent router with and without WithLock (context enter/exit events: no context handed to two in-flight requests), and by sequential multi-instance orders in a fresh process where every observation of an instance (incl. OPTIONS * on a router created after unrelated activity) is validated against that instance\'s own specification state.', '5 C07',
          'TLC model checking of Globals.tla + per-instance trace validation (Trace_Lin.tla) of -race multi-instance runs'),
